@@ -182,3 +182,47 @@ def format_is_the_fstring(s, t):
 @lemma(dict(s=Str(), t=Str()), prop=["ENGINE"], canary=True)
 def canary_format_swaps_its_arguments(s, t):
     return "{} {}".format(s, t) == t + " " + s
+
+
+# --- a dict filled by a loop over a list of symbolic length --------------------------------------------------------------
+STRS = SeqOf(lambda ex, st, name, i: Str().make(ex, st, name))
+
+
+@lemma(dict(keys=STRS), prop=["ENGINE"])
+def dict_filled_by_a_loop_maps_each_key_to_its_value(keys):
+    d = {}
+    for k in keys:
+        d[k] = k + "!"
+    return all(d[k] == k + "!" for k in keys)
+
+
+@lemma(dict(keys=STRS), prop=["ENGINE"], canary=True)
+def canary_dict_filled_by_a_loop_has_one_entry_per_list_item(keys):
+    d = {}
+    for k in keys:
+        d[k] = k + "!"
+    return len(d) == len(keys)
+
+
+@lemma(dict(keys=STRS), prop=["ENGINE"])
+def a_repeated_key_keeps_its_last_value(keys):
+    d = {}
+    for i, k in enumerate(keys):
+        d[k] = i
+    return all(d[k] >= i and keys[d[k]] == k for i, k in enumerate(keys))
+
+
+@lemma(dict(keys=STRS), prop=["ENGINE"], canary=True)
+def canary_a_repeated_key_keeps_its_first_value(keys):
+    d = {}
+    for i, k in enumerate(keys):
+        d[k] = i
+    return all(d[k] == i for i, k in enumerate(keys))
+
+
+@lemma(dict(keys=STRS, probe=Str()), prop=["ENGINE"])
+def membership_in_a_dict_filled_by_a_loop(keys, probe):
+    d = {}
+    for k in keys:
+        d[k] = 1
+    return (probe in d) == (probe in keys)
